@@ -18,6 +18,7 @@ Inductive binop :=
 Inductive expr :=
 | EInt (z : Z)                       (* literal as lexed: 0 <= z < 2^63 *)
 | EStr (s : str)
+| EFlt (shown : str) (nz : bool)     (* a float literal, opaque: the text it prints as ("%.3f"), and whether |x| >= 0.0001 *)
 | ENil
 | EVar (sc : scope) (x : N)
 | EIdx (a i : expr)                  (* a[i] *)
@@ -50,7 +51,7 @@ Inductive stmt :=
 | SContinue
 | SSwitch (e : expr) (items : list switem)
 | SBlock (l : list stmt)
-| SGoto (f : N)
+| SGoto (f : N) (args : list expr)           (* goto f args : the label's parameters take the arguments *)
 | STry (body : stmt) (handlers : list handler)
 | SThrow (f : N) (args : list expr)
 | SPrint (args : list expr)
